@@ -523,3 +523,108 @@ Section Tx2.
     intros Hlt i Hi Hi'. rewrite Forall_forall in Hlt, Hall. specialize (Hlt i Hi). specialize (Hall i Hi'). lia.
   Qed.
 End Tx2.
+
+(* ================= review round 2 ================= *)
+
+(* the literal lists of the five function bodies have exactly the shape the model reads: an added or
+   removed literal (a new special case, a changed bound) in Less / Sort / InPlaceSort / IsSorted is an
+   obligation failure even when the literals the model indexes keep their values (`lit` is total: a
+   missing literal would silently read as 0) *)
+Lemma literals_shape :
+  lits_sortableInputSlice_Less = [0;2;1;1;1;1;1]%Z /\ lits_sortableOutputSlice_Less = [0]%Z /\
+  lits_Sort = []%Z /\ lits_InPlaceSort = []%Z /\ lits_IsSorted = []%Z /\
+  lits_sortableInputSlice_Len = []%Z /\ lits_sortableOutputSlice_Len = []%Z /\
+  lits_sortableInputSlice_Swap = []%Z /\ lits_sortableOutputSlice_Swap = []%Z.
+Proof. repeat split; reflexivity. Qed.
+
+(* IsSorted depends on the key sequence only *)
+Lemma go_is_sorted_in_keys l1 : forall l2, Forall wf_in l1 -> Forall wf_in l2 ->
+  map in_key l1 = map in_key l2 -> go_is_sorted in_less l1 = go_is_sorted in_less l2.
+Proof.
+  induction l1 as [|a t IH]; intros [|b u] H1 H2 E; try discriminate; [reflexivity|].
+  cbn [map] in E. injection E as Ek1 Ek2 Et. assert (in_key a = in_key b) as Ek by (unfold in_key; congruence). inversion H1 as [|? ? Ha Ht]; subst. inversion H2 as [|? ? Hb Hu]; subst.
+  destruct t as [|a' t']; destruct u as [|b' u']; try discriminate; [reflexivity|].
+  pose proof Et as Et0. cbn [map] in Et. injection Et as Ek1' Ek2' Et'. assert (in_key a' = in_key b') as Ek' by (unfold in_key; congruence). inversion Ht as [|? ? Ha' Ht']; subst. inversion Hu as [|? ? Hb' Hu']; subst.
+  change (negb (in_less a' a) && go_is_sorted in_less (a' :: t') = negb (in_less b' b) && go_is_sorted in_less (b' :: u')).
+  rewrite (IH (b' :: u')) by assumption.
+  rewrite (in_less_key a' a), (in_less_key b' b) by assumption. rewrite Ek, Ek'. reflexivity.
+Qed.
+
+Lemma go_is_sorted_out_keys l1 : forall l2,
+  map out_key l1 = map out_key l2 -> go_is_sorted out_less l1 = go_is_sorted out_less l2.
+Proof.
+  induction l1 as [|a t IH]; intros [|b u] E; try discriminate; [reflexivity|].
+  cbn [map] in E. injection E as Ek1 Ek2 Et. assert (out_key a = out_key b) as Ek by (unfold out_key; congruence).
+  destruct t as [|a' t']; destruct u as [|b' u']; try discriminate; [reflexivity|].
+  pose proof Et as Et0. cbn [map] in Et. injection Et as Ek1' Ek2' Et'. assert (out_key a' = out_key b') as Ek' by (unfold out_key; congruence).
+  change (negb (out_less a' a) && go_is_sorted out_less (a' :: t') = negb (out_less b' b) && go_is_sorted out_less (b' :: u')).
+  rewrite (IH (b' :: u')) by assumption.
+  rewrite (out_less_key a' a), (out_less_key b' b). rewrite Ek, Ek'. reflexivity.
+Qed.
+
+Lemma is_sorted_keyseq tx1 tx2 : wf_tx tx1 -> wf_tx tx2 -> keyseq tx1 = keyseq tx2 -> is_sorted tx1 = is_sorted tx2.
+Proof.
+  intros H1 H2 E. apply wf_tx_values in H1. apply wf_tx_values in H2.
+  unfold keyseq in E. rewrite !map_map_key in E. inversion E as [[Ei Eo]].
+  assert (forall tx, is_sorted tx = go_is_sorted in_less (map snd (tx_in tx)) && go_is_sorted out_less (map snd (tx_out tx))) as Hs.
+  { intros tx. unfold is_sorted, in_less_p, out_less_p. rewrite !go_is_sorted_snd.
+    destruct (go_is_sorted in_less (map snd (tx_in tx))); destruct (go_is_sorted out_less (map snd (tx_out tx))); reflexivity. }
+  rewrite !Hs. rewrite (go_is_sorted_in_keys _ _ H1 H2 Ei), (go_is_sorted_out_keys _ _ Eo). reflexivity.
+Qed.
+
+Section Tx3.
+  Variables g1 g2 : forall A : Type, (A -> A -> bool) -> list A -> list A.
+  Hypothesis g1_ok : sort_contract g1.
+  Hypothesis g2_ok : sort_contract g2.
+
+  (* IsSorted is true exactly for the transactions Sort leaves in their order *)
+  Lemma sorted_iff_fixed next tx : wf_tx tx ->
+    (is_sorted tx = true <-> keyseq (sort_tx g1 next tx) = keyseq tx).
+  Proof.
+    intros Hwf. split.
+    - intros Hs. apply (sort_idempotent g1 g1 g1_ok g1_ok next next tx Hwf). assumption.
+    - intros E. rewrite <- (is_sorted_keyseq _ _ (sort_wf g1 g1_ok next tx Hwf) Hwf E).
+      apply (sorted_after_sort g1 g1_ok next tx Hwf).
+  Qed.
+
+  (* idempotence on the elements themselves when equal keys mean equal elements *)
+  Lemma sort_idempotent_elems next next' tx : wf_tx tx ->
+    ((forall a b, In a (map snd (tx_in tx)) -> In b (map snd (tx_in tx)) -> in_key a = in_key b -> a = b) ->
+     map snd (tx_in (sort_tx g2 next' (sort_tx g1 next tx))) = map snd (tx_in (sort_tx g1 next tx)) /\
+     (is_sorted tx = true -> map snd (tx_in (sort_tx g1 next tx)) = map snd (tx_in tx))) /\
+    ((forall a b, In a (map snd (tx_out tx)) -> In b (map snd (tx_out tx)) -> out_key a = out_key b -> a = b) ->
+     map snd (tx_out (sort_tx g2 next' (sort_tx g1 next tx))) = map snd (tx_out (sort_tx g1 next tx)) /\
+     (is_sorted tx = true -> map snd (tx_out (sort_tx g1 next tx)) = map snd (tx_out tx))).
+  Proof.
+    intros Hwf.
+    destruct (sort_idempotent g1 g2 g1_ok g2_ok next next' tx Hwf) as [_ [Hk2 Hk1]].
+    destruct (sort_perm_sorted g1 g1_ok next tx Hwf) as [_ [Hpi [Hpo _]]].
+    destruct (sort_perm_sorted g2 g2_ok next' _ (sort_wf g1 g1_ok next tx Hwf)) as [_ [Hqi [Hqo _]]].
+    unfold keyseq in Hk2, Hk1. rewrite !map_map_key in Hk2, Hk1. inversion Hk2 as [[Hk2i Hk2o]].
+    split; intros Hinj; split.
+    - apply (map_key_inj in_key); [|assumption]. intros a b Ha Hb. apply Hinj.
+      + eapply Permutation_in; [apply Permutation_sym; etransitivity; [exact Hpi|exact Hqi]|assumption].
+      + eapply Permutation_in; [apply Permutation_sym; exact Hpi|assumption].
+    - intros Hs. specialize (Hk1 Hs). inversion Hk1 as [[Hk1i Hk1o]].
+      apply (map_key_inj in_key); [|assumption]. intros a b Ha Hb. apply Hinj; [|assumption].
+      eapply Permutation_in; [apply Permutation_sym; exact Hpi|assumption].
+    - apply (map_key_inj out_key); [|assumption]. intros a b Ha Hb. apply Hinj.
+      + eapply Permutation_in; [apply Permutation_sym; etransitivity; [exact Hpo|exact Hqo]|assumption].
+      + eapply Permutation_in; [apply Permutation_sym; exact Hpo|assumption].
+    - intros Hs. specialize (Hk1 Hs). inversion Hk1 as [[Hk1i Hk1o]].
+      apply (map_key_inj out_key); [|assumption]. intros a b Ha Hb. apply Hinj; [|assumption].
+      eapply Permutation_in; [apply Permutation_sym; exact Hpo|assumption].
+  Qed.
+
+  (* InPlaceSort: other fields identical, the argument's own (object, pointee) pairs permuted - inputs
+     among the inputs, outputs among the outputs -, BIP69 order, accepted by IsSorted *)
+  Lemma inplace_perm_sorted' tx : wf_tx tx ->
+    let s := inplace_sort g1 tx in
+    tx_other s = tx_other tx /\
+    Permutation (tx_in tx) (tx_in s) /\ Permutation (tx_out tx) (tx_out s) /\
+    bip69_ordered s /\ is_sorted s = true.
+  Proof.
+    intros Hwf s. destruct (inplace_perm_sorted g1 g1_ok tx Hwf) as [Ho [Hpi [Hpo [Hb Hw]]]].
+    repeat split; try assumption; try apply Hb. apply (sorted_after_inplace g1 g1_ok tx Hwf).
+  Qed.
+End Tx3.
